@@ -236,12 +236,26 @@ func codecBatch(tok []string) string {
 	}
 	items := cbItems(entry, seed, k)
 	key := []byte(fmt.Sprintf("key-%d", seed%7))
-	// encode (the real encoder); the value that went in is dumped from a fresh copy
-	for _, it := range items {
+	// encode (the real encoder); the value that went in is dumped from a fresh copy.
+	// udp: the payloads arrive the way datagrams do — every one is read into the SAME receive buffer, handed to
+	// udp.NewUDPPacket as a slice of it and queued; the buffer is reused for the next datagram (and scribbled over
+	// after the last) before any queued message is written.  A queued message must hold what was received.
+	var queued []any
+	if entry == "udp" {
+		rbuf := make([]byte, 1<<16)
+		for _, it := range items {
+			n := copy(rbuf, it.payload)
+			queued = append(queued, udp.NewUDPPacket(rbuf[:n], it.laddr, it.raddr))
+			it.vdump = "p" + hex.EncodeToString(it.payload)
+		}
+		for i := range rbuf {
+			rbuf[i] ^= 0x5a
+		}
+	}
+	for i, it := range items {
 		var v any
 		if entry == "udp" {
-			v = udp.NewUDPPacket(it.payload, it.laddr, it.raddr)
-			it.vdump = "p" + hex.EncodeToString(it.payload)
+			v = queued[i]
 		} else {
 			v = buildValue(it.tb, it.vseed)
 			it.vdump = codecCanonValue(reflect.ValueOf(buildValue(it.tb, it.vseed)).Elem())
